@@ -8,6 +8,33 @@ HERE = os.path.dirname(os.path.dirname(os.path.abspath(__file__)))
 
 # id -> (technique, level text, level note, design ref)
 CLAIMS = {
+    "C01": (
+        "provenance / single-use dataflow rule on every Exp(beta) draw; mirror-closure and label resolution of factor files; "
+        "cross-file agreement of model parameters over the statically resolved object graphs of the shipped .ini families; "
+        "plus the rule sets of C03 (degree analysis), C04 (confirmation normal form) and C05 (lifting tables)",
+        "Does NOT decide the property proper (convergence of sampled observables to exp(-beta U)), which is statistical. "
+        "Decides necessary structural conditions whose violation makes the sampled distribution wrong for some configuration: "
+        "every candidate event spends one fresh Exp(setting.beta) budget; every factor listed in a factor file acts on both "
+        "partners and every tagger finds its factor; all shipped variants of one model define the same energy, temperature, "
+        "charges and composition; rates are homogeneous in speed and charges; thinned events are confirmed with the exact "
+        "ratio; lifting moves are balanced by construction.",
+        "Trusted: the frozen list of Ewald convergence knobs and of the two by-design exceptions in jfsa/props/c01.py; "
+        "jfsa/inifront.py as a model of the factory; everything trusted by C03 / C04 / C05.",
+        "DESIGN.md section 3, C01"),
+    "C03": (
+        "abstract interpretation in the domain of homogeneity degrees (speed, charge_one, charge_two) over Python potentials "
+        "(through MRO, attribute sub-potentials) and the cffi C functions (clang AST); permutation-table check; linear-form "
+        "zero-sum check of the multi-body derivative tuple",
+        "Decides for all inputs the clause 'scaled linearly by speed and charge product' (derivative has degree exactly 1 in "
+        "speed and each charge for all 7 concrete potentials with a derivative, displacement degree -1 in speed), that the "
+        "axis permutation feeding the C x-derivative is the cyclic one for the direction of motion at every call, and that the "
+        "per-unit derivatives of the multi-body potential sum to zero identically (translation invariance). Equality of the "
+        "reported rate with dE/dx, convergence / alpha-independence / periodicity / oddness of the lattice sum are numerical "
+        "and not decided.",
+        "Trusted: the degree algebra of jfsa/degree.py (sqrt halves, transcendental functions need degree 0, zero / infinity "
+        "literals are polymorphic); parameter roles by name (charge_one, charge_two, velocity), as the repository's own "
+        "signature inspection does.",
+        "DESIGN.md section 3, C03"),
     "C18": (
         "dataflow / structural rules on the alias-table construction (mass moved = mass removed, refiling, flushing), the "
         "sampling coin, and the cell-veto proposal (paired choice of walker and bound component, candidate-time formula)",
